@@ -19,7 +19,7 @@ type c04 struct{}
 func (c04) ID() string    { return "C04" }
 func (c04) Level() string { return "exploration" }
 func (c04) Rule() string {
-	return "for every attribute of a table of 80 service / network / volume / secret / config attributes classified by the rule the statement gives it (scalar replace, mapping merge, sequence append, KEY=VALUE by key in either spelling, wholesale replace, keyed list, mapping of names with a short list spelling): ALL ways to split a final value of 2-3 atoms into a base part and an override part that the rule maps back to it (replacement from another value or from nothing; every base-only/override-only/both assignment of mapping keys; every cut point of a sequence, with and without a duplicate; every spelling on either side), delivered as two files (also under SkipNormalization / ResolvePaths off / SkipConsistencyCheck / SkipDefaultValues) and as two documents of one file (thorough: 2 overrides, mixed delivery); oracle: load(split) == load(single target document). !reset and !override at a representative of each class, on dotted keys and under dotted service / resource names; a later file mentioning one attribute leaves every other attribute of the full corpus document unchanged. distinct = distinct (attribute, split) pairs"
+	return "for every attribute of a table of 80 service / network / volume / secret / config attributes classified by the rule the statement gives it (scalar replace, mapping merge, sequence append, KEY=VALUE by key in either spelling, wholesale replace, keyed list, mapping of names with a short list spelling): ALL ways to split a final value of 2-3 atoms into a base part and an override part that the rule maps back to it (replacement from another value or from nothing; every base-only/override-only/both assignment of mapping keys; every cut point of a sequence, with and without a duplicate; every spelling on either side), delivered as two files (also under SkipNormalization / ResolvePaths off / SkipConsistencyCheck / SkipDefaultValues) and as two documents of one file (thorough: the override part split again into two, delivered as three files, three documents and mixed); oracle: load(split) == load(single target document). !reset and !override at a representative of each class, on dotted keys and under dotted service / resource names; a later file mentioning one attribute leaves every other attribute of the full corpus document unchanged. distinct = distinct (attribute, split) pairs"
 }
 func (c04) Assumptions() []string {
 	return []string{
@@ -94,6 +94,8 @@ func c04table() []c04attr {
 		sq("S.security_opt", "label=a", "label=b", "label=c"), sq("S.group_add", "g1", "g2", "g3"), sq("S.device_cgroup_rules", "c 1:3 mr", "a 7:* rmw", "c 1:5 r"),
 		sq("S.external_links", "l1", "l2", "l3"), sq("S.volumes_from", "container:c1", "container:c2", "container:c3"),
 		sq("S.build.cache_from", "c1", "c2", "c3"), sq("S.build.platforms", "linux/amd64", "linux/arm64", "linux/386"),
+		sq("S.post_start", m("command", []any{"a"}), m("command", []any{"b"}), m("command", []any{"c"})),
+		sq("S.pre_stop", m("command", []any{"a"}), m("command", []any{"b"}), m("command", []any{"c"})),
 		sq("S.deploy.placement.constraints", "node.role==manager", "node.labels.a==b", "node.labels.c==d"),
 		// value-keyed sequences (single entry per value)
 		un("S.cap_add", "NET_ADMIN", "SYS_TIME", "SYS_PTRACE"), un("S.cap_drop", "ALL", "MKNOD", "CHOWN"), un("S.dns", "1.1.1.1", "2.2.2.2", "3.3.3.3"),
@@ -363,6 +365,9 @@ func c04splits(a c04attr) []c04split {
 		// append with a duplicate: plain sequences keep it
 		dup := append(append([]any{}, a.vals[:2]...), a.vals[1:]...)
 		out = append(out, c04split{"dup", append([]any{}, a.vals[:2]...), true, append([]any{}, a.vals[1:]...), dup})
+		// a later file repeating exactly what is there: still appended
+		out = append(out, c04split{"same1", append([]any{}, a.vals[:1]...), true, append([]any{}, a.vals[:1]...), append(append([]any{}, a.vals[:1]...), a.vals[:1]...)})
+		out = append(out, c04split{"sameall", append([]any{}, a.vals...), true, append([]any{}, a.vals...), append(append([]any{}, a.vals...), a.vals...)})
 	case "unique":
 		n := len(a.vals)
 		for cut := 0; cut < n; cut++ {
@@ -370,6 +375,7 @@ func c04splits(a c04attr) []c04split {
 		}
 		// a repeated value stays single
 		out = append(out, c04split{"dup", append([]any{}, a.vals[:2]...), true, append([]any{}, a.vals[1:]...), append([]any{}, a.vals...)})
+		out = append(out, c04split{"sameall", append([]any{}, a.vals...), true, append([]any{}, a.vals...), append([]any{}, a.vals...)})
 		// string spelling of a single value on the override side where the schema allows it
 		if strings.HasSuffix(a.path, ".dns") || strings.HasSuffix(a.path, ".dns_search") || strings.HasSuffix(a.path, ".tmpfs") {
 			out = append(out, c04split{"string-over", append([]any{}, a.vals[:2]...), true, a.vals[2], append([]any{}, a.vals...)})
@@ -520,8 +526,94 @@ func (c04) Run(c *core.Ctx) {
 			}
 		}
 	}
+	if !c.Quick() {
+		c04threeWay(c, table)
+	}
 	c04tags(c)
 	c04preserve(c)
+}
+
+// c04splitTwo splits an override value into two later parts that the rules map back to it: every bipartition of the keys
+// of a mapping, every cut of a sequence.
+func c04splitTwo(v any) [][2]any {
+	var out [][2]any
+	switch x := v.(type) {
+	case map[string]any:
+		ks := sortedKeys(x)
+		if len(ks) < 2 {
+			return nil
+		}
+		for mask := 1; mask < 1<<len(ks)-1; mask++ {
+			a, b := map[string]any{}, map[string]any{}
+			for i, k := range ks {
+				if mask&(1<<i) != 0 {
+					a[k] = x[k]
+				} else {
+					b[k] = x[k]
+				}
+			}
+			out = append(out, [2]any{a, b})
+		}
+	case []any:
+		for cut := 1; cut < len(x); cut++ {
+			out = append(out, [2]any{append([]any{}, x[:cut]...), append([]any{}, x[cut:]...)})
+		}
+	}
+	return out
+}
+
+// c04threeWay (thorough): the override part of every split is split again, and base + two overrides are delivered as
+// three files, as three documents, and mixed (two documents, then a file).
+func c04threeWay(c *core.Ctx, table []c04attr) {
+	for _, a := range table {
+		if a.class == "named" || a.class == "whole" || a.class == "scalar" {
+			continue // a short list cannot be cut without changing what its names default to; replaced values do not add up
+		}
+		for _, sp := range c04splits(a) {
+			for pi, parts := range c04splitTwo(sp.over) {
+				for _, delivery := range []string{"files3", "documents3", "mixed"} {
+					if c.Expired() {
+						return
+					}
+					a, sp, parts, delivery := a, sp, parts, delivery
+					id := fmt.Sprintf("%s/%s/%s/part%d/%s", a.path, a.class, sp.id, pi, delivery)
+					c.Do(id, func() core.Outcome {
+						target := mapToYAML(c04doc(a.path, sp.target, true))
+						base := mapToYAML(c04doc(a.path, sp.base, sp.basePresent))
+						o1 := mapToYAML(c04over(a.path, parts[0]))
+						o2 := mapToYAML(c04over(a.path, parts[1]))
+						var ps *types.Project
+						var errS error
+						switch delivery {
+						case "files3":
+							ps, errS = c04load(map[string]string{"base.yaml": base, "o1.yaml": o1, "o2.yaml": o2}, []string{"base.yaml", "o1.yaml", "o2.yaml"})
+						case "documents3":
+							ps, errS = c04load(map[string]string{"base.yaml": base + "---\n" + o1 + "---\n" + o2}, []string{"base.yaml"})
+						default:
+							ps, errS = c04load(map[string]string{"base.yaml": base + "---\n" + o1, "o2.yaml": o2}, []string{"base.yaml", "o2.yaml"})
+						}
+						pt, errT := c04load(map[string]string{"base.yaml": target}, []string{"base.yaml"})
+						sample := map[string]any{"attribute": a.path, "split": sp.id, "base": base, "override1": o1, "override2": o2, "target": target}
+						if pe, ok := errS.(*core.PanicError); ok {
+							return core.Outcome{Class: "panic", Sample: sample, Viol: &core.Violation{Key: "panic@" + pe.Site, Msg: id + ": " + pe.Error(), Detail: pe.Stack}}
+						}
+						if errT != nil {
+							return core.Outcome{Class: "target-rejected", Trivial: true}
+						}
+						if errS != nil {
+							return core.Outcome{Class: "rej", Sample: sample, Viol: &core.Violation{Key: "split-rejected:" + a.path + ":" + splitClass(sp.id) + ":three-way",
+								Msg: fmt.Sprintf("%s: the split sources are rejected (%v) although the merged document loads", id, errS)}}
+						}
+						if d := ProjectDiff(pt, ps); d != "" {
+							return core.Outcome{Class: "diff", Sample: sample, Viol: &core.Violation{Key: "merge-differs:" + a.path + ":" + splitClass(sp.id) + ":three-way",
+								Msg: fmt.Sprintf("%s: merging base and two overrides does not give the model of the merged document: %s", id, trunc(d, 600))}}
+						}
+						return core.Outcome{Class: a.path + "/" + sp.id + "/" + delivery, Sample: sample}
+					})
+				}
+			}
+		}
+	}
 }
 
 func splitClass(id string) string {
